@@ -74,9 +74,10 @@ type Term struct {
 	Sort *Sort
 	IVal *big.Int
 	Vars []*Term // bound variables for forall/exists
-	id   int
-	size int
-	fv   bool // contains a bound variable
+	id     int
+	size   int
+	fv     bool // contains a bound variable
+	maxSeq int  // largest creation number of a Fresh symbol inside
 }
 
 var (
@@ -121,6 +122,27 @@ func mk(op, name string, srt *Sort, ival *big.Int, vars []*Term, args ...*Term) 
 	}
 	if op == "var" {
 		t.fv = true
+	}
+	for _, a := range args {
+		if a.maxSeq > t.maxSeq {
+			t.maxSeq = a.maxSeq
+		}
+	}
+	if op == "sym" {
+		if i := strings.LastIndexByte(name, '!'); i >= 0 {
+			n := 0
+			ok := i+1 < len(name)
+			for _, c := range name[i+1:] {
+				if c < '0' || c > '9' {
+					ok = false
+					break
+				}
+				n = n*10 + int(c-'0')
+			}
+			if ok {
+				t.maxSeq = n
+			}
+		}
 	}
 	termTab[key] = t
 	return t
@@ -285,6 +307,9 @@ func Eq(a, b *Term) *Term {
 	if a.Op == "strlit" && b.Op == "strlit" {
 		return Bool(a.Name == b.Name)
 	}
+	if a.Sort.Kind == SKInt && a.Sort != SInt && definitelyDistinct(a, b) {
+		return TFalse
+	}
 	if a.Sort == SBool {
 		if a.Op == "true" {
 			return b
@@ -331,9 +356,21 @@ func Ite(c, a, b *Term) *Term {
 // StrLit is a string constant of sort S; distinct literals are distinct.
 func StrLit(s string) *Term { return mk("strlit", s, SStr, nil, nil) }
 
+// isFreshRef: a symbol introduced for a new allocation.
+func isFreshRef(t *Term) bool { return t.Op == "sym" && strings.HasPrefix(t.Name, "ref_") }
+
 func definitelyDistinct(a, b *Term) bool {
 	if isLit(a) && isLit(b) {
 		return Eq(a, b) == TFalse
+	}
+	// Memory-model fact: a freshly allocated reference differs from every
+	// reference value that existed before the allocation (terms built only
+	// from older symbols) and from nil.
+	if isFreshRef(a) && !b.fv && b.maxSeq < a.maxSeq {
+		return true
+	}
+	if isFreshRef(b) && !a.fv && a.maxSeq < b.maxSeq {
+		return true
 	}
 	if a.Op == "strlit" && b.Op == "strlit" {
 		return a.Name != b.Name
